@@ -16,7 +16,7 @@ PROPS["C05"] = {
         ("contracts.code311", "xdis.codetype.code311:parse_linetable"),
     ],
     "ground": [],
-    "bounded": [("ground.adequacy", "check", {"which": ("lines",)})],
+    "bounded": [("ground.oracle_diff", "check", {"prop": "C05"}), ("ground.adequacy", "check", {"which": ("lines",)})],
     "assumptions": [],
 }
 
@@ -30,7 +30,7 @@ PROPS["C17"] = {
         ("contracts.code311", "xdis.codetype.code311:parse_linetable"),
         ("contracts.code311", "xdis.codetype.code311:decode_position_entry"),
     ],
-    "bounded": [("ground.adequacy", "check", {"which": ("lines", "exc")})],
+    "bounded": [("ground.oracle_diff", "check", {"prop": "C17"}), ("ground.adequacy", "check", {"which": ("lines", "exc")})],
     "assumptions": [],
 }
 
@@ -48,6 +48,7 @@ PROPS["C02"] = {
         ("contracts.decoder", "xdis.bytecode:get_logical_instruction_at_offset", {"quick": ["15", "27", "35", "38", "310", "311", "313"], "thorough": None}),
     ],
     "assumptions": [],
+    "bounded": [("ground.oracle_diff", "check", {"prop": "C02"})],
 }
 
 PROPS["C04"] = {
@@ -68,6 +69,7 @@ PROPS["C04"] = {
     ],
     "assumptions": [],
     "ground": [("ground.effects", "check_frames", {"prop": "C04", "roots": ['xdis.wordcode:findlabels', 'xdis.cross_dis:findlabels', 'xdis.cross_dis:findlabels_pre_310', 'xdis.bytecode:get_instructions_bytes']})],
+    "bounded": [("ground.oracle_diff", "check", {"prop": "C04"})],
 }
 
 PROPS["C03"] = {
@@ -75,7 +77,7 @@ PROPS["C03"] = {
     "contracts": [
         ("contracts.decoder", "xdis.bytecode:get_logical_instruction_at_offset"),
     ],
-    "bounded": [("ground.localsplus", "check")],
+    "bounded": [("ground.oracle_diff", "check", {"prop": "C03"}), ("ground.localsplus", "check")],
     "assumptions": [],
 }
 
@@ -178,7 +180,7 @@ PROPS["C01"] = {
         ("contracts.unmarshal_dispatch", "xdis.unmarshal:_VersionIndependentUnmarshaller.t_code"),
     ] + PROPS["C10"]["contracts"],
     "ground": [("ground.c01", "check")],
-    "bounded": [("ground.unmarshal_diff", "check")],
+    "bounded": [("ground.oracle_diff", "check", {"prop": "C01"}), ("ground.unmarshal_diff", "check")],
     "assumptions": [],
 }
 
